@@ -59,7 +59,7 @@ CHECKS = {
    note="all 1024 schedules on 4 suites (64 sampled on the other 16) in quick, all on all 20 in thorough; base worlds seeded"),
  "C15": dict(cat="fault_enumeration", ref="DESIGN.md section 3 C15",
    technique="deterministic simulation with the Ksf trait as seam: SimKsf call log (count, instance, input), KSF failing at call n, KSF instance pairs at registration/login decided by Model A, same-tape registrations under two instances; real Identity and Argon2 run too",
-   text="Exactly one KSF evaluation per client finish step, of the instance the caller passed (default when absent), on an Nh-byte input equal at registration and login; equal parameters succeed, different ones give InvalidLoginError, explicit default equals absent (SimKsf incl. instances whose output ignores the input, Identity, Argon2 default and non-default cost); every password-derived secret differs between two instances on identical tapes; an injected failure at call 1 surfaces as LibraryError(KsfError) without panic and a failure planned for call 2 never fires.",
+   text="Exactly one KSF evaluation per client finish step, of the instance the caller passed (default when absent), on an Nh-byte input equal at registration and login; equal parameters succeed, different ones give InvalidLoginError, explicit default equals absent (SimKsf incl. instances whose output ignores the input, Identity, Argon2 default and non-default cost); every password-derived secret differs between two instances on identical tapes; an injected failure at call 1 surfaces as LibraryError(KsfError) without panic and a failure planned for call 2 never fires; the same (one call, failure returned, outputs byte-identical to SimKsf computing the same function on the same tapes) for a Ksf type without fields on one fixed suite.",
    note="fault index enumerated over n in {1,2} per finish step; pairs enumerated; worlds seeded"),
  "C17": dict(cat="exploration", ref="DESIGN.md section 3 C17",
    technique="deterministic simulation over the RNG seam: recorded tapes replayed equal / independent / as prefixes at every draw boundary, single-draw replacement, and a generator whose try_fill_bytes errors; values compared by role",
